@@ -2,7 +2,19 @@
 """print the prompt for an independent breakage-seeding agent: tools/seed_prompt.py C01 /tmp/seed-C01"""
 import json, sys
 pid, wt = sys.argv[1], sys.argv[2]
+rnd = sys.argv[3] if len(sys.argv) > 3 else ""
 p = next(json.loads(l) for l in open("/verif/properties.jsonl") if json.loads(l)["id"] == pid)
+EXTRA = {
+ "r2": ("THIS ROUND: earlier rounds already produced the obvious single-site slips (a wrong index, a swapped axis, a dropped copy, a wrong tolerance). "
+        "Look for changes of these kinds instead: (1) state that goes stale - a cached / memoised attribute, a stored derived quantity, an object shared between "
+        "a result and its operand - so that the violation needs a SEQUENCE of public calls (read, modify in place, read again; derive an object, transform it, "
+        "look at the original); (2) a change in a helper or in another module (util, io, plotting helpers, operators, mesh/region used by field) whose effect on "
+        "this property only shows through a composition of features (e.g. a field that came from a file, a selection, a rotation or an operator and is then used "
+        "in the operation the property talks about); (3) a fast path or special case that is only taken for particular argument TYPES or shapes (numpy integer "
+        "vs Python int, tuple vs list vs ndarray, 0-d arrays, single-cell axes, 1-d or 4-d meshes, complex or integer dtype, empty or one-element containers, "
+        "keyword vs positional form, negative or zero values where legitimate); (4) two sites that must agree (writer/reader, in-place/copying form, field/mesh/region "
+        "versions of one operation, forward/inverse) changed so that common cases still agree. At least two of your three changes must be of kind (1) or (2).\n"),
+}
 print(f"""You are testing how well a Python library's behaviour is pinned down. The library is ubermag/discretisedfield (regions, finite-difference meshes and fields for micromagnetics). You have your own scratch git worktree of it at {wt} (a detached worktree of the repository; work ONLY inside that directory; do not touch /repo, /verif or any other directory; do not look at /verif). Run Python as: cd {wt} && PYTHONPATH={wt} /venv/bin/python ... (check with `python -c "import discretisedfield, os; print(discretisedfield.__file__)"` that the module is imported from {wt}). The existing test suite is run with: cd {wt} && PYTHONPATH={wt}/seeds/.site:{wt} /venv/bin/python -m pytest -q -p no:cacheprovider --timeout=900 discretisedfield/tests -n 6   (the directory {wt}/seeds/.site holds a sitecustomize.py that only seeds Python's random module, which the parallel test collection needs; the machine is shared and busy, so a run can take 3-15 minutes; two tests, including test_pyvista_streamlines, may fail even on the unchanged code — ignore tests that also fail without your change).
 
 Here is a semantic property the library is supposed to satisfy:
@@ -17,7 +29,7 @@ YOUR TASK: produce THREE different, independent, realistic source changes to the
   (a) the library still imports and the existing test suite still passes with it (apart from tests that fail without it too);
   (b) the property above is violated for SOME input / configuration / sequence of operations;
   (c) the violation needs something specific to manifest: an unusual but legitimate input (a particular dimension count, an odd size, a negative or large argument, a non-default option, anisotropic cells, a particular offset or scale), a multi-step sequence of operations, or two cooperating code sites that each look fine alone. Prefer changes in different functions/clauses of the property for the three patches, and at least one that only manifests on a narrow class of inputs.
-For each change k in 1..3 write, inside {wt}/seeds/:
+{EXTRA.get(rnd, "")}For each change k in 1..3 write, inside {wt}/seeds/:
   - change{{k}}.diff : the patch (unified diff, `git diff` output relative to the worktree HEAD, touching only files under discretisedfield/ and not the tests);
   - demo{{k}}.py : a small stand-alone program using only the public API that exits 0 on the unchanged library and exits non-zero (with an assertion message explaining the violated clause) when the change is applied;
   - note{{k}}.txt : two or three lines: what the change does, which clause of the property it breaks, what it needs in order to manifest.
